@@ -51,6 +51,13 @@ func c07Configs(env *engine.Env) []c07Config {
 		s := s
 		out = append(out, c07Config{name: s.Name, only: s.Only, doc: func(env *engine.Env, root string) fixture.Doc { return s.doc(payload, root) }})
 	}
+	// times that are not whole seconds: the package mtime, entry mtimes, on-disk times of a tree
+	for _, mt := range []string{"F", "G"} {
+		s := Setting{Name: "mtime=" + mt, MTime: mt}
+		out = append(out, c07Config{name: "fractional-" + s.Name, doc: func(env *engine.Env, root string) fixture.Doc {
+			return s.doc(append(append([]model.Entry{}, payload[1:]...), c01Fractional()...), root)
+		}})
+	}
 	// metadata-rich: relations, extras, scripts, changelog
 	out = append(out, c07Config{name: "metadata-rich", doc: func(env *engine.Env, root string) fixture.Doc {
 		m := baseMeta()
@@ -118,7 +125,7 @@ func init() {
 			"oracle: all outputs of one configuration byte-identical, and every timestamp decoded anywhere in the package is the configured mtime, an explicit entry mtime or a source's on-disk mtime; non-trivial = a package was built; distinct = distinct (configuration, format, output hash)",
 		Assumptions: []string{
 			"interleavings inside pgzip/zstd are not enumerated; GOMAXPROCS is an environment dimension",
-			"allowed timestamps: configured mtime, the explicit entry mtime of the alphabet, any fixture file's mtime (2001-2005), script files' mtime; anything else is unexplained, anything within a day of the build is a clock leak",
+			"allowed timestamps: configured mtime, the explicit entry mtime of the alphabet, any fixture file's mtime (2001-2006), script files' mtime; a time with a sub-second part may be stored as the second it falls in or as the nearest second; anything else is unexplained, anything within a day of the build is a clock leak",
 		},
 		Setup:  setupC07,
 		Decode: decodeInto[C07Case],
@@ -172,12 +179,27 @@ func shortHash(b []byte) string {
 // allowedStamps is the set of timestamps a package may legitimately carry.
 func allowedStamps(env *engine.Env, extra ...time.Time) map[int64]string {
 	t := tree(env)
-	ok := map[int64]string{PkgMTime.Unix(): "configured mtime", EntryMTime.Unix(): "entry mtime", fixture.T0.Unix(): "script/fixture mtime"}
+	ok := map[int64]string{}
+	// a time that is not a whole second is stored in a one-second field as the second it falls in or as the nearest
+	// second: both are "the configured time" at the field's resolution (which of the two is C01's and C03's matter)
+	add := func(t time.Time, what string) {
+		ok[t.Unix()] = what
+		if t.Nanosecond() != 0 {
+			ok[t.Unix()+1] = what + " (to the nearest second)"
+		}
+	}
+	add(PkgMTime, "configured mtime")
+	add(EntryMTime, "entry mtime")
+	add(fixture.T0, "script/fixture mtime")
+	for _, d := range []time.Duration{500, 600, 750, 999} {
+		add(PkgMTime.Add(d*time.Millisecond), "configured mtime")
+		add(EntryMTime.Add(d*time.Millisecond), "entry mtime")
+	}
 	for _, n := range t.Nodes {
-		ok[n.MTime.Unix()] = "mtime of source " + n.Rel
+		add(n.MTime, "mtime of source "+n.Rel)
 	}
 	for _, e := range extra {
-		ok[e.Unix()] = "configured"
+		add(e, "configured")
 	}
 	return ok
 }
